@@ -6,4 +6,10 @@ PM_Acts == <<[name |-> "matmul", req |-> "any", out |-> "none"], [name |-> "T", 
 PM_MaxLen == 2
 PM_SampleMod == 1
 PM_SampleRes == 0
+PM_Paths == <<[name |-> "inv_tri_lower", role |-> "rhs"], [name |-> "lanczos", role |-> "start"]>>
+PM_Roles == [rhs |-> [sides |-> <<"R", "L">>, classes |-> <<"vec", "mat">>], start |-> [sides |-> <<"A">>, classes |-> <<"vec">>]]
+PM_Classes == [vec |-> <<"v1", "v1s", "v1ro">>, mat |-> <<"C", "F", "T", "S", "Cro">>]
+PM_SweepLen == 2
+PM_SweepAll == FALSE
+PM_SweepRes == 0
 ====
